@@ -79,7 +79,7 @@ def gen_cases(ctx):
     exh_cfgs = [(3, 0, 2, 0), (3, 1, 2, 2), (2, 2, 2, 1)] if quick else \
                [(3, 0, 2, 0), (3, 1, 2, 2), (2, 2, 2, 1), (3, 2, None, 0), (None, 0, 2, 1), (3, 0, 2, 1), (2, 1, 3, 0)]
     for (tl, cl, tn, cn) in exh_cfgs:
-        for h in enum_histories(L if (quick or (tl, cl, tn, cn) in exh_cfgs[:3]) else 4, tl, tn):
+        for h in enum_histories(L if (quick or (tl, cl, tn, cn) in exh_cfgs[:2]) else 4, tl, tn):
             cases.append(((tl, cl, tn, cn), h, "exh"))
     # long random histories on every configuration
     per = 1 if quick else 12
